@@ -158,6 +158,22 @@ func (n rnode) build(path string, depth, mmode int, beh ...int) any {
 	panic(n.T)
 }
 
+// rdepth is the nesting depth of a described tree.
+func rdepth(n rnode) int {
+	d := 0
+	for _, k := range n.Kids {
+		if x := rdepth(k); x > d {
+			d = x
+		}
+	}
+	if n.Ex != nil {
+		if x := rdepth(*n.Ex); x > d {
+			d = x
+		}
+	}
+	return d + 1
+}
+
 // c20FreeBuilderHandles: whoever assembled the tree lets go of its own handles on the nested instances
 // (Free on a copy of each handle) once they are stored: the tree keeps its own.
 func c20FreeBuilderHandles(vals []any, parity int) {
@@ -631,6 +647,44 @@ func c20Trees(c *Ctx) []rnode {
 			chains(1, h)
 		}
 	}
+	// the long regime: chains of 6 to 40 (65) single-child levels - rotating headers, all NOT, all
+	// parenthetical (nothing to unwrap), all plain (everything unwraps), Conditions as every third link
+	deepLens := []int{6, 9, 15, 16, 17, 18, 24, 33}
+	if !c.Quick() {
+		deepLens = []int{6, 7, 8, 9, 12, 15, 16, 17, 18, 24, 31, 32, 33, 40, 65}
+	}
+	for _, d := range deepLens {
+		for pat := 0; pat < 5; pat++ {
+			for ti, t := range [][]rnode{{{T: "leaf"}}, {{T: "leaf"}, {T: "leaf"}}, {{T: "C"}}} {
+				if pat > 0 && ti == 1 && c.Quick() {
+					continue
+				}
+				cur := rnode{T: "S", K: "OR", Kids: t}
+				for lvl := 1; lvl < d; lvl++ {
+					var h rnode
+					switch pat {
+					case 0:
+						h = headers[lvl%4]
+					case 1:
+						h = rnode{T: "S", K: "NOT"}
+					case 2:
+						h = rnode{T: "S", K: []string{"AND", "OR", "LIST"}[lvl%3], Paren: true}
+					case 3:
+						h = rnode{T: "S", K: []string{"AND", "OR"}[lvl%2]}
+					default:
+						h = headers[(lvl+1)%4]
+						if lvl%3 == 0 {
+							cc := cur
+							cur = rnode{T: "C", Ex: &cc}
+						}
+					}
+					h.Kids = []rnode{cur}
+					cur = h
+				}
+				trees = append(trees, rnode{T: "S", K: "AND", Kids: []rnode{cur}}, rnode{T: "S", K: "OR", Kids: []rnode{{T: "leaf"}, cur}})
+			}
+		}
+	}
 	// a Condition holding a two-level Stack, next to (before / after / two away from) an envelope that
 	// Reveal removes: every pairing of headers for the two levels, three innermost contents
 	for _, h1 := range headers {
@@ -697,6 +751,12 @@ func init() {
 					}
 					if !c.Quick() && ((m == 1 && (b == 1 || b == 2)) || (b == 8 && m == 1)) {
 						continue // thorough: the single index options are tried without mutexes (mode 4 = all of them, with)
+					}
+					if (b == 1 || b == 4) && rdepth(trees[i]) > 12 {
+						// with forward indices on, Reveal visits the last element of every level twice (an index
+						// one past the end resolves to it): 2^depth visits. Not a deadlock, but nothing a check
+						// can wait for at depth 33; the forward-index modes stop at depth 12.
+						continue
 					}
 					if (b == 6 && m != 1 && m != 2) || (b >= 7 && m > 1) {
 						continue // late locking: all / root only; freed builder handles: no / all mutexes
